@@ -56,6 +56,21 @@ type KnownFinding struct {
 	Description string `json:"description"`
 	Witness     string `json:"witness"`
 	Commit      string `json:"commit,omitempty"`
+	// Labels, when present, restricts the finding to violations of these assertions: a different
+	// assertion failing on the same inputs is a different violation and is reported.
+	Labels []string `json:"labels,omitempty"`
+}
+
+func (k *KnownFinding) covers(label string) bool {
+	if len(k.Labels) == 0 {
+		return true
+	}
+	for _, l := range k.Labels {
+		if l == label {
+			return true
+		}
+	}
+	return false
 }
 
 type harnessResult struct {
@@ -189,14 +204,17 @@ func main() {
 			// violations inside a known-finding region of a stub-based harness: run the finding's native
 			// demonstration (real keys / real storage) instead of the model replay
 			for _, reg := range v.Regions {
-				if fr, ok := r.h.FindingReplays[reg]; ok {
+				if fr, ok := r.h.FindingReplays[reg]; ok && known[reg] != nil && known[reg].covers(v.Label) {
 					confirmed, note = runFindingReplay(ps.Property, r.h, fr)
 				}
 			}
 			r.replays++
+			if *verbose || os.Getenv("VERIF_LIST_REGIONS") != "" {
+				fmt.Printf("violation-record harness=%s label=%q regions=%v\n", r.h.Entry, v.Label, v.Regions)
+			}
 			allKnown := len(v.Regions) > 0
 			for _, reg := range v.Regions {
-				if known[reg] == nil || known[reg].Status != "known" {
+				if known[reg] == nil || known[reg].Status != "known" || !known[reg].covers(v.Label) {
 					allKnown = false
 				}
 			}
